@@ -5,7 +5,7 @@
    whose [<] ([ltb]) is a strict total order ([key_order]).  C14_comparable_keys discharges
    [key_order] for pytezos' == and < on every comparable Michelson type (C03), composite keys
    included.  Histories are unbounded lists of operations; literals are operations too. *)
-From Coq Require Import List ZArith Bool Sorted.
+From Coq Require Import List ZArith Bool Sorted Permutation.
 From PV Require Import Base.Bytes Base.Result Michelson.Compare Michelson.Collections
   Proofs.Collections_proofs Proofs.Compare_proofs.
 Import ListNotations.
@@ -85,6 +85,37 @@ Section C14.
     intros ops f. apply (map_map_ok K V eqb ltb E I Tr To).
     apply (map_history_sorted K V eqb ltb E I Tr To).
   Qed.
+
+  (* What is assumed of Python's sorted(): ONLY that, on a list whose keys are pairwise distinct, it
+     returns a permutation of its input whose keys are non-descending.  Any such function [srt]
+     - coincides with the model's insertion sort wherever the code calls sorted() (uniqueness of the
+       sorted permutation under a strict total order),
+     - gives the same check_constraints (the duplicate test comes first, as in pytezos),
+     - and set.py / map.py written with [srt] ([set_step_g], [map_step_g]) produce exactly the
+       model's collections after every history — so all theorems above hold for them. *)
+  Theorem C14_sorted_needs_only_sorted_permutation :
+    forall srt : (forall A : Type, (A -> K) -> list A -> list A),
+    (forall A (key : A -> K) l, NoDup (map key l) ->
+       Permutation (srt A key l) l /\ StronglySorted (fun a b => ltb b a = false) (map key (srt A key l))) ->
+    (forall A (key : A -> K) l, NoDup (map key l) -> srt A key l = sorted_by ltb key l) /\
+    (forall ks, check_g K eqb srt ks = check_constraints eqb ltb ks) /\
+    (forall ops, fold_left (set_step_g K eqb srt) ops [] = set_run eqb ltb ops) /\
+    (forall ops : list (map_op K V), fold_left (map_step_g K V eqb srt) ops [] = map_run eqb ltb ops).
+  Proof.
+    intros srt OK. split; [|split; [|split]].
+    - intros A key l N. apply (srt_is_sorted_by K ltb); first [exact E | exact I | exact Tr | exact To | assumption].
+    - intro ks. apply (check_g_eq K eqb ltb); first [exact E | exact I | exact Tr | exact To | assumption].
+    - intro ops. apply (set_run_g_eq K eqb ltb); first [exact E | exact I | exact Tr | exact To | assumption].
+    - intro ops. apply (map_run_g_eq K V eqb ltb); first [exact E | exact I | exact Tr | exact To | assumption].
+  Qed.
+
+  (* uniqueness itself: any permutation of a duplicate-free list that is weakly sorted IS the insertion sort *)
+  Theorem C14_sorted_permutation_unique : forall A (key : A -> K) (l l' : list A),
+    NoDup (map key l) -> Permutation l' l ->
+    StronglySorted (fun a b => ltb b a = false) (map key l') -> l' = sorted_by ltb key l.
+  Proof.
+    intros A key l l' N P W. apply (sorted_perm_unique K ltb); first [exact I | exact Tr | exact To | assumption].
+  Qed.
 End C14.
 
 (* instruction-level scripts (the form the correspondence run executes): the state and observation
@@ -107,6 +138,8 @@ Proof.
   split; [apply t_ltb_trans, TOK | apply t_ltb_total, TOK].
 Qed.
 
+Print Assumptions C14_sorted_needs_only_sorted_permutation.
+Print Assumptions C14_sorted_permutation_unique.
 Print Assumptions C14_history_sorted.
 Print Assumptions C14_refines_dict.
 Print Assumptions C14_iteration_is_sorted_listing.
